@@ -200,7 +200,7 @@ class SpectralDensity(DFunction, UnitsManaged):
                     
                 elif ftype == "Underdamped":
            
-                    self._make_underdamped(params)
+                    self._make_underdamped(prms)
                     
                 elif ftype == "B777":
                     
@@ -298,15 +298,17 @@ class SpectralDensity(DFunction, UnitsManaged):
                      omega0**2)**2 + (gamma*omega)**2)
 
         if values is not None:
-            self._make_me(self.axis, values)
+            self._add_me(self.axis, values)
         else:
-            self._make_me(self.axis, cfce)
+            self._add_me(self.axis, cfce)
 
         # this is in internal units
-        self.lamb = lamb            
-        self.lim_omega = numpy.zeros(2)
-        self.lim_omega[0] = 0.0
-        self.lim_omega[1] = 4*(gamma*(omega0**2))/((omega0**2)**2)
+        self.lamb += lamb            
+        lim_omega = numpy.zeros(2)
+        lim_omega[0] = 0.0
+        lim_omega[1] = 4*(gamma*(omega0**2))/((omega0**2)**2)
+        for i in range(2):
+            self.lim_omega[i] += lim_omega[i]
         
     # See Renger, Journal of Chemical Physics 2002
     # See Jang, Newton, Silbey, J Chem Phys. 2007 for alternate form
